@@ -70,7 +70,7 @@ Definition own_impl (s : rstruct) (i : rimpl) : bool := String.eqb (s_name s) (i
 
 Definition spec_class_rep (s : section) (f : sfile) (c : cls) : list rep :=
   spec_unit_rep (c_name c) (c_line c) (c_col c) (spec_mm s (f_lang f)) (spec_ml s (f_lang f)) (spec_check s)
-                (spec_methods (c_members c)) (spec_loc (f_lines f) (c_line c) (c_len c))
+                (spec_methods (c_members c)) (spec_loc (f_lines f) (c_line c - c_deco c) (c_len c))
                 (spec_keyword (spec_keywords s) (c_name c)).
 
 Definition spec_struct_rep (s : section) (f : sfile) (st : rstruct) : list rep :=
@@ -129,8 +129,10 @@ Definition ckind_ok (l : lang) (k : ckind) : bool :=
 (* a node occupying source lines start .. start+len-1 of a file with n lines *)
 Definition span_good (n start len : nat) : bool := (1 <=? start) && (1 <=? len) && (start + len - 1 <=? n).
 
+(* the class node starts c_deco lines above the keyword line (decorators; TypeScript only) *)
 Definition cls_good (l : lang) (n : nat) (c : cls) : bool :=
-  ckind_ok l (c_kind c) && negb (String.eqb (c_name c) "") && span_good n (c_line c) (c_len c)
+  ckind_ok l (c_kind c) && negb (String.eqb (c_name c) "") && span_good n (c_line c - c_deco c) (c_len c)
+  && match l with Ts => true | _ => c_deco c =? 0 end
   && forallb (member_good l) (c_members c).
 
 Definition struct_good (n : nat) (s : rstruct) : bool :=
@@ -165,11 +167,6 @@ Definition config_good (c : config) : bool :=
   forallb (fun e => forallb (fun kv => cval_good (fst kv) (snd kv)) (snd e)) c.
 
 (* ------------------------------------------------------------------ defect classes (for the confinement theorems) *)
-Definition units_spans (f : sfile) : list (nat * nat) :=
-  match f_lang f with
-  | Rs => map (fun s => (s_line s, s_len s)) (f_structs f) ++ map (fun i => (i_line i, i_len i)) (f_impls f)
-  | _ => map (fun c => (c_line c, c_len c)) (f_classes f)
-  end.
 Definition is_lang (l : lang) (f : sfile) : bool :=
   match l, f_lang f with Py, Py | Ts, Ts | Js, Js | Rs, Rs => true | _, _ => false end.
 Definition is_tsjs (f : sfile) : bool := is_lang Ts f || is_lang Js f.
@@ -177,25 +174,19 @@ Definition is_tsjs (f : sfile) : bool := is_lang Ts f || is_lang Js f.
 (* no # line inside a multi-line string (Python) *)
 Definition free_py_hash (f : sfile) : bool :=
   negb (is_lang Py f) || forallb (fun x => negb (lkind_eqb (l_kind x) LStrHash)) (f_lines f).
-(* every line of every class is a code line (TS/JS) *)
-Definition free_ts_loc (f : sfile) : bool :=
-  negb (is_tsjs f) || forallb (fun c => forallb is_code (extent (f_lines f) (c_line c) (c_len c))) (f_classes f).
 Definition nonpublic (k : mkind) : bool := match k with MPrivateKw | MProtectedKw | MHashPrivate => true | _ => false end.
 Definition accessor (k : mkind) : bool := match k with MProperty => true | _ => false end.
 Definition free_ts_nonpublic (f : sfile) : bool :=
   negb (is_tsjs f) || forallb (fun c => forallb (fun m => negb (nonpublic (m_kind m))) (c_members c)) (f_classes f).
 Definition free_ts_accessor (f : sfile) : bool :=
   negb (is_tsjs f) || forallb (fun c => forallb (fun m => negb (accessor (m_kind m))) (c_members c)) (f_classes f).
-Definition is_abstract (k : ckind) : bool := match k with CAbstract | CExportAbstract => true | _ => false end.
-Definition free_ts_abstract (f : sfile) : bool :=
-  negb (is_tsjs f) || forallb (fun c => negb (is_abstract (c_kind c))) (f_classes f).
-(* no `impl Trait for T` with a plain trait name; no generic impl; no two modules using one type name *)
-Definition free_rs_trait (f : sfile) : bool :=
-  negb (is_lang Rs f) || forallb (fun i => match i_trait i with TSimple _ => false | _ => true end) (f_impls f).
-Definition free_rs_generic (f : sfile) : bool :=
-  negb (is_lang Rs f) || forallb (fun i => negb (i_generic i)) (f_impls f).
+(* no one-line block comment (TS/JS; Rust) *)
+Definition free_ts_block (f : sfile) : bool :=
+  negb (is_tsjs f) || forallb (fun x => negb (lkind_eqb (l_kind x) LBlockComment)) (f_lines f).
+Definition free_rs_block (f : sfile) : bool :=
+  negb (is_lang Rs f) || forallb (fun x => negb (lkind_eqb (l_kind x) LBlockComment)) (f_lines f).
+(* no two modules using one type name (Rust) *)
 Definition free_rs_collision (f : sfile) : bool :=
   negb (is_lang Rs f)
   || forallb (fun s => forallb (fun i => implb (String.eqb (s_name s) (i_self i)) (path_eqb (s_path s) (i_path i))) (f_impls f)) (f_structs f).
-Definition free_rs_block (f : sfile) : bool :=
-  negb (is_lang Rs f) || forallb (fun x => negb (lkind_eqb (l_kind x) LBlockComment)) (f_lines f).
+Definition is_abstract (k : ckind) : bool := match k with CAbstract | CExportAbstract => true | _ => false end.
